@@ -44,10 +44,10 @@ type Event struct {
 }
 
 type Recorder struct {
-	Keep   bool
-	Events []Event
-	n      int
-	h      uint64
+	Keep    bool
+	Events  []Event
+	n       int
+	h       uint64
 	OnEvent func(sess int, kind string) // scheduler hook (C19)
 }
 
@@ -99,9 +99,10 @@ type Cfg struct {
 	Language     string `json:"language,omitempty"`
 	MenuSep      string `json:"menu_sep,omitempty"`
 	Backend      int    `json:"backend"`
-	FinishAlways bool   `json:"finish_always,omitempty"` // call Finish also after a failed Exec/Flush
-	SetSession   bool   `json:"set_session,omitempty"`   // caller sets the session on the store handle (as examples/http does)
-	First        bool   `json:"first,omitempty"`         // every engine is built WithFirst(a benign scripted pre-VM function)
+	FinishAlways bool   `json:"finish_always,omitempty"`  // call Finish also after a failed Exec/Flush
+	SetSession   bool   `json:"set_session,omitempty"`    // caller sets the session on the store handle (as examples/http does)
+	First        bool   `json:"first,omitempty"`          // every engine is built WithFirst(a benign scripted pre-VM function)
+	ResetOnEmpty bool   `json:"reset_on_empty,omitempty"` // engine.Config.ResetOnEmptyInput
 }
 
 // ---------------------------------------------------------------------------------------
@@ -120,21 +121,21 @@ type ExtCall struct {
 // sessions and steps
 
 type Step struct {
-	Input     string `json:"input"`
-	Fresh     bool   `json:"fresh,omitempty"`
-	Cont      bool   `json:"cont"`
-	ExecErr   string `json:"exec_err,omitempty"`
-	Out       string `json:"out"`
-	FlushErr  string `json:"flush_err,omitempty"`
-	FinishErr string `json:"finish_err,omitempty"`
-	Panic     string `json:"panic,omitempty"`
-	PanicAt   string `json:"panic_at,omitempty"`
-	Flushed   bool   `json:"flushed,omitempty"`
-	Finished  bool   `json:"finished,omitempty"`
-	Moves     []string `json:"moves,omitempty"`     // nodes fetched by GetCode during the request
-	Calls     int      `json:"calls,omitempty"`     // external calls during the request
-	Funcs     int      `json:"funcs,omitempty"`     // FuncFor lookups during the request
-	Tpls      []string `json:"tpls,omitempty"`      // templates fetched
+	Input     string   `json:"input"`
+	Fresh     bool     `json:"fresh,omitempty"`
+	Cont      bool     `json:"cont"`
+	ExecErr   string   `json:"exec_err,omitempty"`
+	Out       string   `json:"out"`
+	FlushErr  string   `json:"flush_err,omitempty"`
+	FinishErr string   `json:"finish_err,omitempty"`
+	Panic     string   `json:"panic,omitempty"`
+	PanicAt   string   `json:"panic_at,omitempty"`
+	Flushed   bool     `json:"flushed,omitempty"`
+	Finished  bool     `json:"finished,omitempty"`
+	Moves     []string `json:"moves,omitempty"` // nodes fetched by GetCode during the request
+	Calls     int      `json:"calls,omitempty"` // external calls during the request
+	Funcs     int      `json:"funcs,omitempty"` // FuncFor lookups during the request
+	Tpls      []string `json:"tpls,omitempty"`  // templates fetched
 }
 
 type Sess struct {
@@ -153,9 +154,9 @@ type Sess struct {
 	cur     *Step
 	Res     *Res
 	// LangSeen records the language observed on every lookup, in order.
-	Lookups []Lookup
+	Lookups     []Lookup
 	KeepLookups bool
-	PosLog  []Pos // position after every request
+	PosLog      []Pos // position after every request
 }
 
 type Pos struct {
@@ -171,11 +172,11 @@ type Lookup struct {
 }
 
 type World struct {
-	App  *app.App
-	Cfg  Cfg
-	Rec  *Recorder
-	Sess []*Sess
-	NewStore func(s *Sess) (db.Db, error) // backend factory (fresh handle on the same durable medium)
+	App      *app.App
+	Cfg      Cfg
+	Rec      *Recorder
+	Sess     []*Sess
+	NewStore func(s *Sess) (db.Db, error)    // backend factory (fresh handle on the same durable medium)
 	Peek     func(s *Sess) (db.Db, error)    // independent handle for observation (does not disturb the session's handle)
 	ResFor   func(s *Sess) resource.Resource // optional override of the resource stack
 	Disk     *simfs.FS
@@ -371,13 +372,14 @@ func panicSite(stack string) string {
 func (s *Sess) engineCfg() engine.Config {
 	c := s.W.Cfg
 	return engine.Config{
-		OutputSize:    c.OutputSize,
-		SessionId:     s.ID,
-		Root:          s.W.App.Root,
-		FlagCount:     c.FlagCount,
-		CacheSize:     c.CacheSize,
-		Language:      c.Language,
-		MenuSeparator: c.MenuSep,
+		OutputSize:        c.OutputSize,
+		SessionId:         s.ID,
+		Root:              s.W.App.Root,
+		FlagCount:         c.FlagCount,
+		CacheSize:         c.CacheSize,
+		Language:          c.Language,
+		MenuSeparator:     c.MenuSep,
+		ResetOnEmptyInput: c.ResetOnEmpty,
 	}
 }
 
